@@ -128,16 +128,16 @@ type SketchInit struct {
 }
 
 type SketchCfg struct {
-	Init     []SketchInit   `json:"init"`
-	Mappings []MappingSpec  `json:"mappings"` // index = mapping token - 1
-	PosReal  []string       `json:"posReal"`  // real type for exact-kind stores per slot
-	NegReal  []string       `json:"negReal"`
-	Keys     keyEmbedding   `json:"keys"`
-	Q        int            `json:"q"`
-	QDen     int            `json:"qden"`
-	Mode     string         `json:"mode"`  // every | final
-	Proto    int            `json:"proto"` // protobuf path variant
-	Scales   []float64      `json:"scales,omitempty"` // scale factors of ChangeMap events, index = scale token
+	Init     []SketchInit    `json:"init"`
+	Mappings []MappingSpec   `json:"mappings"` // index = mapping token - 1
+	PosReal  []string        `json:"posReal"`  // real type for exact-kind stores per slot
+	NegReal  []string        `json:"negReal"`
+	Keys     keyEmbedding    `json:"keys"`
+	Q        int             `json:"q"`
+	QDen     int             `json:"qden"`
+	Mode     string          `json:"mode"`             // every | final
+	Proto    int             `json:"proto"`            // protobuf path variant
+	Scales   []float64       `json:"scales,omitempty"` // scale factors of ChangeMap events, index = scale token
 	Aspects  map[string]bool `json:"aspects"`
 }
 
@@ -449,7 +449,7 @@ func (w *sketchWorld) readAll(r *realSketch) {
 		r.exact.Encode(&b, false)
 		r.exact.Encode(&b, true)
 		c := r.exact.Copy()
-		c.Add(1)
+		c.Add(probeValue(r.base()))
 		c.Clear()
 	}
 	s := r.base()
@@ -473,8 +473,18 @@ func (w *sketchWorld) readAll(r *realSketch) {
 	for range s.GetNegativeValueStore().Bins() {
 	}
 	c := s.Copy()
-	c.Add(1)
+	c.Add(probeValue(s))
 	c.Clear()
+}
+
+// probeValue is a value to add to a copy of s that is mutated and thrown away: one the sketch already holds (a dense
+// store asked for 1.0 while its content sits at the far end of the indexable range allocates the whole span, 2.8 GB
+// at alpha=1e-6).
+func probeValue(s *ddsketch.DDSketch) float64 {
+	if v, err := s.GetMaxValue(); err == nil {
+		return v
+	}
+	return 1
 }
 
 // ---- comparison ------------------------------------------------------------
